@@ -44,6 +44,13 @@ class CteExtractor(BaseExtractor):
                 holder |= self.delegate_to(
                     UpdateExtractor, segment, AnalyzerContext(cte=holder.cte)
                 )
+            elif segment.type == "merge_statement":
+                # This is to avoid circular import
+                from .merge import MergeExtractor
+
+                holder |= self.delegate_to(
+                    MergeExtractor, segment, AnalyzerContext(cte=holder.cte)
+                )
             elif segment.type == "delete_statement":
                 # WITH ... DELETE moves no data, same as DELETE alone
                 return self._init_holder(context)
